@@ -105,7 +105,7 @@ CLAIMS = {
          'fuel = nesting depth suffices (no loop without progress), and what it builds is at most (2 + nesting depth) units (string characters, bytes, Vec elements) per byte CONSUMED '
          '(dec_sized); instantiated by computation on the regenerated tables for all shipped command decoders, containers and reply parsers (<= 12 units per APDU byte); BCD decoder = exact '
          'value or error. Tie: differential run in debug (overflow checks) AND release builds over all short bodies, every truncation and single-byte substitution of corpus + generated '
-         'packets, structure-aware mutants; model-free oracle: never Panic/Hang, heap allocation measured by a counting allocator <= 64*len+8192.', "DESIGN.md section 6 C02, section 16.3"),
+         'packets, structure-aware mutants; model-free oracle: never Panic/Hang, heap allocation measured by a counting allocator <= 64*len+8192. One OPEN known finding (known_findings.json, printed as KNOWN-FINDING; C02_refuted_for_wide_integers): a binary integer under a BER-TLV length announcing more bytes than the field is wide is read from its first bytes instead of being an error.', "DESIGN.md section 6 C02, section 16.3"),
  "C16": ("Unbounded Coq theorems about the model of zvt_builder::length (round trip with arbitrary trailing data, injectivity, "
          "shortest form with the 128/256 and 255 switch points, truncated prefix is an error, no parser panics); the model is tied "
          "to the code by an exhaustive differential run (every representable length of every style; every 1-2 byte prefix "
